@@ -71,14 +71,17 @@ print("RESULT", r, round(time.perf_counter() - t, 3), resource.getrusage(resourc
 """
 
 
-def shared_reference_bomb(n):
-    """L_k = 28([L_{k-1}, 29(index of L_{k-1})]): compact when decoded with value sharing, 2^n copies when re-encoded without"""
+def shared_reference_bomb(n, width=1):
+    """L_k = 28([L_{k-1}, 29(index of L_{k-1})]): compact when decoded with value sharing, 2^n copies when re-encoded without.
+    `width`: bytes used for the tag numbers (cbor2 accepts non-shortest heads: d8 1c, d9 00 1c, da 00 00 00 1c)"""
     import cbor2
+    t28 = {1: "d81c", 2: "d9001c", 4: "da0000001c"}[width]
+    t29 = {1: "d81d", 2: "d9001d", 4: "da0000001d"}[width]
 
     def rec(k, idx):
         if k == 0:
-            return bytes.fromhex("d81c80")
-        return bytes.fromhex("d81c82") + rec(k - 1, idx + 1) + bytes.fromhex("d81d") + cbor2.dumps(idx + 1)
+            return bytes.fromhex(t28 + "80")
+        return bytes.fromhex(t28 + "82") + rec(k - 1, idx + 1) + bytes.fromhex(t29) + cbor2.dumps(idx + 1)
     return rec(n, 0)
 
 
@@ -100,6 +103,8 @@ def deep_rejections(res, tier):
         jobs.append((n, "manifest", "shared-references", bytes.fromhex("d86ba103") + bomb))
         jobs.append((n, "manifest-bstr", "shared-references", cbor2.dumps(cbor2.CBORTag(107, {3: bomb}))))
         jobs.append((n, "wrapper", "shared-references", cbor2.dumps(cbor2.CBORTag(107, {2: bomb, 3: cbor2.dumps({1: 1, 2: 1})}))))
+        for width in (2, 4):
+            jobs.append((n, f"manifest-w{width}", "shared-references", bytes.fromhex("d86ba103") + shared_reference_bomb(n, width)))
     # a shared *leaf*: one long byte string marked shareable (tag 28) and referenced many times (tag 29); and string references (25/256)
     for leaf, refs in ([(4096, 2000), (60000, 30000)] if tier == "quick" else [(4096, 2000), (60000, 30000), (400000, 150000)]):
         body = bytes.fromhex("d81c") + cbor2.dumps(bytes(leaf)) + bytes.fromhex("d81d00") * refs
